@@ -29,7 +29,7 @@ func Load(dir string, patterns []string, overlay map[string][]byte, tags string)
 	var errs []string
 	packages.Visit(initial, nil, func(p *packages.Package) {
 		for _, e := range p.Errors {
-			errs = append(errs, e.Error())
+			errs = append(errs, fmt.Sprintf("%s: %s: %s", p.PkgPath, e.Pos, e.Msg))
 		}
 	})
 	if len(errs) > 0 {
